@@ -12,6 +12,7 @@ mod validator;
 mod udp_codec;
 mod ws_swarm;
 mod addr;
+mod http_resp;
 
 use std::collections::HashMap;
 
@@ -113,6 +114,8 @@ fn main() {
         "udp-codec" => udp_codec::run(&args),
         "ws-swarm" => ws_swarm::run(&args),
         "addr" => addr::run(&args),
+        "http-resp" => http_resp::run(&args),
+        "config-refusal" => http_resp::run_refusal(&args),
         "export-child" => export_crash::child(&args),
         other => {
             eprintln!("unknown suite {}", other);
